@@ -5,6 +5,7 @@ lemmas, and `create_format_4` as a whole.
 import FontVerif.Model.Cmap
 import FontVerif.Lemmas.Cmap4
 import FontVerif.Lemmas.Cmap4Seg
+import FontVerif.Lemmas.Cmap4Iter
 set_option linter.unusedVariables false
 namespace FontVerif.Cmap
 open FontVerif
@@ -229,5 +230,136 @@ theorem encode4_ok (m : Mapping) (segs : List Seg) (n : Nat) (hg : ∀ p ∈ m, 
   refine ⟨_, rfl, ?_⟩
   simp [Cmap4.lengthFits, Cmap4.ofRows]
   omega
+
+/-! ## enumeration -/
+
+theorem pairsFrom_bmpPrefix (m : Mapping) :
+    pairsFrom (cpAt m.toArray) (gidAt m.toArray) 0 (bmpPrefix m).length = bmpPrefix m := by
+  apply List.ext_getElem
+  · simp [pairsFrom]
+  · intro k h1 h2
+    obtain ⟨e1, e2⟩ := prefix_agree m k h2
+    simp only [pairsFrom, List.getElem_map, List.getElem_range', Nat.zero_add, Nat.one_mul]
+    rw [← e1, ← e2]
+    simp [cpAt, gidAt, List.getElem?_eq_getElem h2]
+
+theorem bmpPrefix_eq_filter (m : Mapping) (hasc : Ascending m) :
+    bmpPrefix m = m.filter (fun p => decide (p.1 ≤ 0xFFFF)) := by
+  unfold bmpPrefix
+  induction m with
+  | nil => rfl
+  | cons h t ih =>
+    have hp := List.pairwise_cons.1 hasc
+    by_cases hh : h.1 ≤ 0xFFFF
+    · simp only [List.takeWhile_cons, List.filter_cons, decide_eq_true_eq, hh, if_true]
+      rw [ih hp.2]
+    · simp only [List.takeWhile_cons, List.filter_cons, decide_eq_true_eq, hh, if_false]
+      symm
+      rw [List.filter_eq_nil_iff]
+      intro x hx
+      have := hp.1 x hx
+      simp only [decide_eq_true_eq]
+      omega
+
+/-- `Cmap4::iter()` on the table `create_format_4` returns for a valid segmentation -/
+theorem encode4_iter (m : Mapping) (hd : InDomain m) (segs : List Seg)
+    (hv : SegsTile (cpAt m.toArray) (gidAt m.toArray) 0 (bmpPrefix m).length segs)
+    (t : Cmap4) (h : encode4 m segs = .ok (some t)) :
+    iter4 t = bmpPrefix m ++ [(0xFFFF, 0)] := by
+  have hm := mapOk_of_inDomain m hd
+  have hne : segs ≠ [] := by
+    intro h0; subst h0
+    unfold encode4 at h
+    split at h
+    · cases h
+    · simp at h
+  rcases encode4_rows m segs (fun p hp => (hd.gid p hp).2) hne with htrap | ⟨rows, g, hok, hr⟩
+  · rw [htrap] at h; cases h
+  rw [hok] at h
+  injection h with h
+  injection h with h
+  subst h
+  rw [iter4_ofRows hm hv hr, pairsFrom_bmpPrefix]
+
+/-! ## `create_format_4` + `Cmap4::map_codepoint` -/
+
+theorem encode4_lookup (m : Mapping) (hd : InDomain m) (segs : List Seg)
+    (hv : SegsTile (cpAt m.toArray) (gidAt m.toArray) 0 (bmpPrefix m).length segs)
+    (t : Cmap4) (h : encode4 m segs = .ok (some t)) (c v : Nat) :
+    map4 t c = some v ↔ ((c, v) ∈ m ∧ c ≤ 0xFFFF) ∨ (c = 0xFFFF ∧ v = 0) := by
+  have hm := mapOk_of_inDomain m hd
+  have hne : segs ≠ [] := by
+    intro h0; subst h0
+    unfold encode4 at h
+    split at h
+    · cases h
+    · simp at h
+  rcases encode4_rows m segs (fun p hp => (hd.gid p hp).2) hne with htrap | ⟨rows, g, hok, hr⟩
+  · rw [htrap] at h; cases h
+  rw [hok] at h
+  injection h with h
+  injection h with h
+  subst h
+  rw [mem_iff_index m hd c v]
+  constructor
+  · intro hq
+    by_cases hc : c = 0xFFFF
+    · subst hc
+      rw [map4_sentinel hm hv hr] at hq
+      exact Or.inr ⟨rfl, (Option.some.inj hq).symm⟩
+    · by_cases hex : ∃ k, k < (bmpPrefix m).length ∧ cpAt m.toArray k = c
+      · obtain ⟨k, hk, hck⟩ := hex
+        rw [← hck, map4_mapped hm hv hr k hk] at hq
+        exact Or.inl ⟨k, hk, hck, Option.some.inj hq⟩
+      · rw [map4_unmapped hm hv hr c hc (fun k hk hck => hex ⟨k, hk, hck⟩)] at hq
+        cases hq
+  · rintro (⟨k, hk, hck, hgk⟩ | ⟨rfl, rfl⟩)
+    · rw [← hck, ← hgk]
+      exact map4_mapped hm hv hr k hk
+    · exact map4_sentinel hm hv hr
+
+theorem createFormat4_none_iff (m : Mapping) (hd : InDomain m) :
+    createFormat4 m = .ok none ↔ ∀ p ∈ m, p.1 > 0xFFFF := by
+  have hsz : segments m = [] ↔ bmpPrefix m = [] := by
+    unfold segments
+    rw [computeSegs_nil_iff]
+    simp
+  have hpre : bmpPrefix m = [] ↔ ∀ p ∈ m, p.1 > 0xFFFF := by
+    rw [List.eq_nil_iff_forall_not_mem]
+    constructor
+    · intro h p hp
+      have := h p
+      rw [mem_bmpPrefix m hd.asc] at this
+      rcases Nat.lt_or_ge 0xFFFF p.1 with h' | h'
+      · exact h'
+      · exact absurd ⟨hp, h'⟩ this
+    · intro h p hp
+      rw [mem_bmpPrefix m hd.asc] at hp
+      have := h p hp.1
+      omega
+  rw [← hpre, ← hsz]
+  constructor
+  · intro h
+    by_cases hne : segments m = []
+    · exact hne
+    · rcases encode4_rows m (segments m) (fun p hp => (hd.gid p hp).2) hne with htrap | ⟨rows, g, hok, _⟩
+      · rw [createFormat4, htrap] at h; cases h
+      · rw [createFormat4, hok] at h; cases h
+  · intro h
+    unfold createFormat4 encode4
+    have e1 : (m.any fun p => decide (p.2 > 0xFFFF)) = false := by
+      rw [List.any_eq_false]
+      intro p hp
+      have := (hd.gid p hp).2
+      simp; omega
+    simp [e1, h]
+
+theorem createFormat4_ok (m : Mapping) (hd : InDomain m) (hne : bmpPrefix m ≠ [])
+    (hn : (bmpPrefix m).length ≤ 6551) : ∃ t, createFormat4 m = .ok (some t) ∧ t.lengthFits = true := by
+  have hsegs : segments m ≠ [] := by
+    unfold segments
+    rw [Ne, computeSegs_nil_iff]
+    simpa using hne
+  exact encode4_ok m (segments m) _ (fun p hp => (hd.gid p hp).2) (segments_tile m) hn hsegs
 
 end FontVerif.Cmap
